@@ -10,10 +10,10 @@ import (
 // Only the domain parameters are taken from crypto/elliptic; the arithmetic below is the
 // textbook affine chord-and-tangent rule on math/big.
 type Curve struct {
-	Name       string
-	P, B, N    *big.Int
-	Gx, Gy     *big.Int
-	ByteLen    int
+	Name    string
+	P, B, N *big.Int
+	Gx, Gy  *big.Int
+	ByteLen int
 }
 
 // CurveByName returns the NIST curve for "nistp256", "nistp384" or "nistp521".
